@@ -19,7 +19,7 @@ CLAUSES = {
 }
 BOUNDS = {
     "quick": "start/stop/reference: any integer seconds with |t| <= 1e10; step n: any integer |n| <= 1e6; dt in {1, 7, 60, 3600} s; period values: any integer 0..1e6",
-    "thorough": "as quick plus dt in {2, 3, 5, 11, 13, 86400, 100000}",
+    "thorough": "as quick plus dt in {2, 3, 5, 11, 13, 86400, 100000} and a symbolic dt in 1..12",
 }
 ASSUMES = ["times within +-1e10 s of the epoch (datetime64[s] range used in practice)"]
 OUTSIDE = ("digit-count dependent formatting (zero padding) of symbolic numerals; the 'd' entry of unit_table (numpy has no 'd' unit: nctime('d') raises TypeError; "
@@ -33,6 +33,9 @@ def scenarios(tier):
     for dt in dts:
         for rev in (False, True):
             out.append(dict(name=f"clock-dt{dt}-{'rev' if rev else 'fwd'}", fn="clock", params=dict(dt=dt, rev=rev), cost=5))
+    if tier != "quick":
+        for rev in (False, True):
+            out.append(dict(name=f"clock-dtsym-{'rev' if rev else 'fwd'}", fn="clock", params=dict(dt="sym", rev=rev), cost=20))
     out.append(dict(name="reject", fn="reject", params={}, cost=1))
     out.append(dict(name="periods", fn="periods", params={}, cost=3))
     for shape in ("H", "M", "S", "HM", "HS", "MS", "HMS"):
@@ -45,6 +48,9 @@ def scenarios(tier):
 def _timer(W, p):
     tk = W.load("ladim.timekeeper")
     dt, rev = p["dt"], p["rev"]
+    if dt == "sym":
+        dt = W.idx(W.int("dt", 1, 12))  # symbolic time step: every value explored by solver-enumerated forks
+        p["dt"] = dt
     start = W.int("start", -BIG, BIG)
     dur = W.int("dur", 1, 10 ** 8)  # |stop - start| in seconds, any value (need not be a multiple of dt)
     ref = W.int("ref", -BIG, BIG)
